@@ -378,16 +378,11 @@ func (w *c01world) exec(op sim.Op) (rec c01rec, ok bool) {
 func (w *c01world) fp(clause, op string, other int) string {
 	if other >= 0 && other < pmMaxSub && w.ev[other] != "" {
 		ev := w.ev[other]
-		label := w.label
 		switch ev {
 		case "alloc", "reask", "renew", "set":
 			ev = "active" // nothing abnormal happened to the holder
-		default:
-			// the holder's own history explains the context; whether the store
-			// echoes local writes is incidental then
-			label = strings.TrimSuffix(label, "+echo")
 		}
-		return fmt.Sprintf("%s/%s/holder-%s", clause, label, ev)
+		return fmt.Sprintf("%s/%s/holder-%s", clause, w.label, ev)
 	}
 	return fmt.Sprintf("%s/%s/%s", clause, w.label, op)
 }
